@@ -1078,4 +1078,140 @@ Qed.
 Lemma nil_of_no_in : forall l : list (Z * V), (forall x, ~ In x l) -> l = [].
 Proof. intros [|a l] H; auto. exfalso. apply (H a). left; auto. Qed.
 
+(* ---------- BTree_rangeSearch: the two ends ---------- *)
+Definition lowp_ls (ls : leafseq) (fl : Z -> nat) (lo : option Z) (exlo : bool) : option (nat * nat) :=
+  match lo with
+  | Some a => fre_ls ls (fl a) a true exlo
+  | None => if exlo then (if (1 <? length (nth_leaf V ls 0))%nat then Some (O, 1%nat)
+                          else if (1 <? length ls)%nat then Some (1%nat, O) else None)
+            else Some (O, O)
+  end.
+Definition highp_ls (ls : leafseq) (fl : Z -> nat) (hi : option Z) (exhi : bool) : option (nat * nat) :=
+  match hi with
+  | Some b => fre_ls ls (fl b) b false exhi
+  | None =>
+    let lastj := (length ls - 1)%nat in
+    let off := (length (nth_leaf V ls lastj) - 1)%nat in
+    if exhi then (if (0 <? off)%nat then Some (lastj, (off - 1)%nat)
+                  else match lastj with
+                       | O => None
+                       | S p => Some (p, (length (nth_leaf V ls p) - 1)%nat)
+                       end)
+    else Some (lastj, off)
+  end.
+Definition ends_ls (ls : leafseq) (fl : Z -> nat) (lo hi : option Z) (exlo exhi : bool)
+  : option ((nat * nat) * (nat * nat)) :=
+  match lowp_ls ls fl lo exlo with
+  | None => None
+  | Some lp =>
+    match highp_ls ls fl hi exhi with
+    | None => None
+    | Some hp =>
+      if (fst lp =? fst hp)%nat then (if (snd hp <? snd lp)%nat then None else Some (lp, hp))
+      else if key_at V ls hp <? key_at V ls lp then None else Some (lp, hp)
+    end
+  end.
+
+Lemma c_range_ends_eq : forall t lo hi exlo exhi, lseq V t <> [] ->
+  c_range_ends V t lo hi exlo exhi = ends_ls (lseq V t) (find_leaf V t) lo hi exlo exhi.
+Proof.
+  intros t lo hi exlo exhi H.
+  unfold c_range_ends, ends_ls, lowp_ls, highp_ls, c_fre, fre_ls.
+  destruct (lseq V t); [congruence|reflexivity].
+Qed.
+
+Lemma second_low : forall e e1 rest, let m := e :: e1 :: rest in ssorted m ->
+  (exists y, In y m /\ fst y < fst e1) /\
+  (forall x, In x m -> (exists y, In y m /\ fst y < fst x) -> fst e1 <= fst x).
+Proof.
+  intros e e1 rest m Hs. subst m. apply ss_cons_inv in Hs. destruct Hs as [Hs H0].
+  apply ss_cons_inv in Hs. destruct Hs as [Hs H1]. split.
+  - exists e. split; [left; auto|]. apply H0. left; auto.
+  - intros x [<-|[<-|Hx]] [y [Hy Hlt]]; [|lia|specialize (H1 _ Hx); lia].
+    destruct Hy as [<-|Hy]; [lia|]. specialize (H0 _ Hy). lia.
+Qed.
+
+Lemma lowp_spec : forall ls fl lo exlo, LS ls -> (forall k, FL ls k (fl k)) ->
+  low_spec ls (Lpred (concat ls) lo exlo) (lowp_ls ls fl lo exlo).
+Proof.
+  intros ls fl lo exlo HLS HFL. destruct lo as [a|].
+  - exact (fre_low ls (fl a) a exlo HLS (HFL a)).
+  - destruct (LS_first _ HLS) as [e [l [r E]]]. subst ls.
+    destruct HLS as [_ [Hne Hss]]. unfold lowp_ls, nth_leaf. destruct exlo.
+    + destruct l as [|e1 l].
+      * simpl nth. simpl length. destruct r as [|l2 r].
+        -- simpl. intros x [<-|[]] [y [[<-|[]] Hlt]]. lia.
+        -- inversion Hne as [|? ? _ Hne']; subst. inversion Hne' as [|? ? Hl2 _]; subst.
+           destruct l2 as [|e1 l2]; [congruence|]. simpl Nat.ltb. cbv iota.
+           simpl in Hss. destruct (second_low _ _ _ Hss) as [S1 S2].
+           exists e1. split; [reflexivity|]. simpl. split; auto.
+      * simpl. simpl in Hss. destruct (second_low _ _ _ Hss) as [S1 S2].
+        exists e1. split; [reflexivity|]. split; auto.
+    + exists e. split; [reflexivity|]. simpl. split; auto.
+      intros x Hx _. simpl in Hss. apply ss_cons_inv in Hss. destruct Hss as [_ Hss].
+      destruct Hx as [<-|Hx]; [lia|]. specialize (Hss _ Hx). lia.
+Qed.
+
+Lemma len_last : forall {T} (A : list T) x, (length (A ++ [x]) - 1)%nat = length A.
+Proof. intros. rewrite app_length. simpl. lia. Qed.
+
+Lemma nth_error_mid : forall (l : list (Z * V)) e r, nth_error (l ++ e :: r) (length l) = Some e.
+Proof. intros. rewrite nth_error_app2 by lia. rewrite Nat.sub_diag. reflexivity. Qed.
+
+Lemma penult_high : forall Y e0 e, let m := Y ++ [e0; e] in ssorted m ->
+  (exists y, In y m /\ fst e0 < fst y) /\
+  (forall x, In x m -> (exists y, In y m /\ fst x < fst y) -> fst x <= fst e0).
+Proof.
+  intros Y e0 e m Hs. subst m. apply ss_app in Hs. destruct Hs as [_ [Hs Hc]].
+  apply ss_cons_inv in Hs. destruct Hs as [_ Hs]. specialize (Hs e (or_introl eq_refl)). split.
+  - exists e. split; auto. apply in_or_app. right. right. left. auto.
+  - intros x Hx [y [Hy Hlt]]. apply in_app_or in Hx. destruct Hx as [Hx|[<-|[<-|[]]]]; [|lia|].
+    + specialize (Hc x e0 Hx (or_introl eq_refl)). lia.
+    + apply in_app_or in Hy. destruct Hy as [Hy|[<-|[<-|[]]]]; try lia.
+      specialize (Hc y x Hy (or_intror (or_introl eq_refl))). lia.
+Qed.
+
+Lemma highp_spec : forall ls fl hi exhi, LS ls -> (forall k, FL ls k (fl k)) ->
+  high_spec ls (Hpred (concat ls) hi exhi) (highp_ls ls fl hi exhi).
+Proof.
+  intros ls fl hi exhi HLS HFL. destruct hi as [b|].
+  - exact (fre_high ls (fl b) b exhi HLS (HFL b)).
+  - destruct (LS_last _ HLS) as [A [l [e E]]]. subst ls.
+    destruct HLS as [_ [Hne Hss]]. unfold highp_ls. cbv zeta.
+    rewrite len_last, split_nth, len_last. destruct exhi.
+    + destruct l as [|e0 l] using rev_ind.
+      * simpl Nat.ltb. cbv iota. destruct A as [|l1 A] using rev_ind.
+        -- simpl. intros x [<-|[]] [y [[<-|[]] Hlt]]. lia.
+        -- clear IHA. rewrite app_length. simpl length. rewrite Nat.add_1_r.
+           rewrite split_nth_P.
+           assert (Hl1: l1 <> []).
+           { unfold NE in Hne. rewrite Forall_forall in Hne. apply Hne.
+             apply in_or_app. left. apply in_or_app. right. left. auto. }
+           destruct l1 as [|e0 l1] using rev_ind; [congruence|]. clear IHl1.
+           assert (Em: concat ((A ++ [l1 ++ [e0]]) ++ [[] ++ [e]]) = (concat A ++ l1) ++ [e0; e]).
+           { rewrite !concat_app. simpl. rewrite !app_nil_r, <- !app_assoc. reflexivity. }
+           rewrite Em in Hss. destruct (penult_high _ _ _ Hss) as [P1 P2].
+           exists e0. split; [|split].
+           ++ unfold entry. simpl. rewrite split_nth_P. apply nth_error_last.
+           ++ simpl. rewrite Em. auto.
+           ++ simpl. rewrite Em. auto.
+      * clear IHl. rewrite app_length. simpl length. rewrite Nat.add_1_r. simpl Nat.ltb. cbv iota.
+        assert (Em: concat (A ++ [(l ++ [e0]) ++ [e]]) = (concat A ++ l) ++ [e0; e]).
+        { rewrite !concat_app. simpl. rewrite !app_nil_r, <- !app_assoc. reflexivity. }
+        rewrite Em in Hss. destruct (penult_high _ _ _ Hss) as [P1 P2].
+        exists e0. split; [|split].
+        ++ unfold entry. simpl. rewrite split_nth. rewrite Nat.sub_0_r.
+           rewrite <- app_assoc. apply nth_error_mid.
+        ++ simpl. rewrite Em. auto.
+        ++ simpl. rewrite Em. auto.
+    + exists e. split; [|split].
+      * unfold entry. simpl. rewrite split_nth. apply nth_error_mid.
+      * simpl. auto.
+      * intros x Hx _. rewrite concat_app in Hx, Hss. simpl in Hx, Hss.
+        rewrite app_nil_r, app_assoc in Hx, Hss.
+        apply ss_app in Hss. destruct Hss as [_ [_ Hc]].
+        apply in_app_or in Hx. destruct Hx as [Hx|[<-|[]]]; [|lia].
+        specialize (Hc x e Hx (or_introl eq_refl)). lia.
+Qed.
+
 End RP.
